@@ -388,7 +388,8 @@ structure FlowOk (f : Spec.Flow) : Prop where
   prio : f.priority ≤ 0xffff
   /-- without repair D38: wildcarded dl_type / nw_proto fields do not look like prerequisites -/
   prereq : v.prereqExact = false → PrereqExact f.mtch
-  tos : f.mtch.nwTos % 4 = 0
+  /-- without repair D36: no ECN bits in the flow's nw_tos -/
+  tos : v.tosDscp = false → f.mtch.nwTos % 4 = 0
   /-- without repair D26: a flow that is exact under the prerequisite rule has no wildcard bit at all and is IPv4 TCP/UDP/ICMP -/
   exactL4 : v.exactSig = false → Spec.exactSig f.mtch = true →
     Spec.exact f.mtch = true ∧ f.mtch.dlType = 0x0800 ∧ isL4Proto f.mtch.nwProto = true
@@ -435,38 +436,6 @@ theorem rank_le (f g : Spec.Flow) (hf : v.FlowOk f) (hg : v.FlowOk g)
   have := hf.prio; have := hg.prio
   simp only [Spec.rankSig, EXACT_PRIORITY] at h ⊢
   split at h <;> split at h <;> simp_all <;> omega
-
-/-- Lookup in any table that is sorted by the variant's effective priority and whose entries stem from transmitted flows answers as
-    the standard prescribes for the flows the table holds. -/
-theorem lookup_isBest (tbl : Table Spec.Flow) (hs : SortedBy v.effectivePriority tbl)
-    (hw : ∀ e ∈ tbl, e = v.toEntry e.data ∧ v.FlowOk e.data)
-    (p : PHdr) (port : Nat) (hr : v.regular p = true) (hpt : pktTos p % 4 = 0) :
-    Spec.IsBestSig (tbl.map (·.data)) (Spec.headers p port) ((v.entryForPacket tbl p port).map (·.data)) := by
-  have hacc : ∀ e ∈ tbl, Entry.accepts (v.fromPacket p port) e = Spec.matchHdr e.data.mtch (Spec.headers p port) := by
-    intro e he
-    obtain ⟨h1, h2⟩ := hw e he
-    rw [h1]
-    exact wire_accepts_packet v e.data.mtch p port h2.prereq h2.tos hr hpt
-  obtain ⟨hfound, hmiss⟩ := first_match_max v.effectivePriority (Entry.accepts (v.fromPacket p port)) tbl hs
-  cases hq : v.entryForPacket tbl p port with
-  | none =>
-    have := hmiss.mp hq
-    simp only [Option.map_none, Spec.IsBestSig]
-    intro g hg
-    obtain ⟨e, he, rfl⟩ := List.mem_map.mp hg
-    rw [← hacc e he]; exact this e he
-  | some e =>
-    obtain ⟨h1, h2, h3⟩ := hfound e hq
-    simp only [Option.map_some, Spec.IsBestSig]
-    refine ⟨List.mem_map.mpr ⟨e, h2, rfl⟩, by rw [← hacc e h2]; exact h1, ?_⟩
-    intro g hg hm
-    obtain ⟨e', he', rfl⟩ := List.mem_map.mp hg
-    have hle := h3 e' he' (by rw [hacc e' he']; exact hm)
-    have a := (hw e h2).1
-    have b := (hw e' he').1
-    rw [a, b] at hle
-    exact rank_le v e.data e'.data (hw e h2).2 (hw e' he').2 hle
-
 
 /-! ### subsumption -/
 
@@ -520,6 +489,165 @@ theorem code_subsumes (a b : OfMatch) (ha : v.prereqExact = false → PrereqExac
     matchesWith true (v.ofWire a) (v.ofWire b) = Spec.subsumes a b := by
   rw [ofWire_left, ofWire_right, ← subsumes_pre v a b]
   exact OF.code_subsumes (v.pre a) (v.pre b) (prereq_pre v a ha) (prereq_pre v b hb) ta tb hbw
+
+/-! ### repair D36: ToS reduced to its DSCP bits -/
+
+theorem dscpOf_mod (x : Nat) : dscpOf x % 4 = 0 := by unfold dscpOf; omega
+theorem dscpOf_div (x : Nat) : dscpOf x / 4 = x / 4 := by unfold dscpOf; omega
+theorem dscpOf_idem (x : Nat) : dscpOf (dscpOf x) = dscpOf x := by unfold dscpOf; omega
+theorem dscpOf_of_mod (x : Nat) (h : x % 4 = 0) : dscpOf x = x := by unfold dscpOf; omega
+
+/-- the frame with the ECN bits of its ToS byte cleared -/
+def maskP : PHdr → PHdr
+  | ⟨src, dst, typ, llc, vlan, .ipv4 s d pr tos f l4⟩ => ⟨src, dst, typ, llc, vlan, .ipv4 s d pr (dscpOf tos) f l4⟩
+  | p => p
+
+def maskO (o : OHeaders) : OHeaders := { o with nwTos := o.nwTos.map dscpOf }
+
+theorem maskO_of_none (o : OHeaders) (h : o.nwTos = none) : maskO o = o := by
+  cases o; simp only [maskO] at *; simp_all
+
+theorem extractG_tos_arp (g sf : Bool) (src dst typ : Nat) (llc : Option Llc) (vlan : Option Vlan) (op s d : Nat) (ip : Option Nat) :
+    (extractG g sf ⟨src, dst, typ, llc, vlan, .arp op s d⟩ ip).nwTos = none := by
+  cases vlan <;> cases llc with
+  | none => cases g <;> simp [extractG] <;> split <;> rfl
+  | some l => by_cases hs : l.snapOui = some 0 <;> cases g <;> simp [extractG, hs] <;> (try split) <;> rfl
+
+theorem extractG_tos_other (g sf : Bool) (src dst typ : Nat) (llc : Option Llc) (vlan : Option Vlan) (ip : Option Nat) :
+    (extractG g sf ⟨src, dst, typ, llc, vlan, .other⟩ ip).nwTos = none := by
+  cases vlan <;> cases llc with
+  | none => simp [extractG]
+  | some l => by_cases hs : l.snapOui = some 0 <;> simp [extractG, hs]
+
+theorem extractG_maskP (g sf : Bool) (p : PHdr) (ip : Option Nat) : extractG g sf (maskP p) ip = maskO (extractG g sf p ip) := by
+  obtain ⟨src, dst, typ, llc, vlan, l3⟩ := p
+  cases l3 with
+  | ipv4 s d pr tos frag l4 =>
+    cases vlan <;> cases llc with
+    | none => cases frag <;> cases sf <;> cases l4 <;> simp [extractG, maskP, maskO] <;> (try rfl)
+    | some l => by_cases hs : l.snapOui = some 0 <;> cases frag <;> cases sf <;> cases l4 <;> simp [extractG, maskP, maskO, hs] <;> (try rfl)
+  | arp op s d =>
+    rw [maskO_of_none _ (extractG_tos_arp g sf src dst typ llc vlan op s d ip)]; rfl
+  | other =>
+    rw [maskO_of_none _ (extractG_tos_other g sf src dst typ llc vlan ip)]; rfl
+
+theorem regularG_maskP (g : Bool) (p : PHdr) : regularG g (maskP p) = regularG g p := by
+  obtain ⟨src, dst, typ, llc, vlan, l3⟩ := p
+  cases l3 <;> cases vlan <;> cases llc <;> simp [maskP, regularG, Spec.dlTypeOf, Spec.etherType]
+
+theorem headers_maskP (p : PHdr) (port : Nat) : Spec.headers (maskP p) port = Spec.headers p port := by
+  obtain ⟨src, dst, typ, llc, vlan, l3⟩ := p
+  cases l3 with
+  | ipv4 s d pr tos frag l4 =>
+    have e : dscpOf tos / 4 * 4 = tos / 4 * 4 := by unfold dscpOf; omega
+    cases vlan <;> cases llc <;> simp [maskP, Spec.headers, Spec.dlTypeOf, Spec.etherType, Spec.zeroL3, e]
+  | arp op s d => rfl
+  | other => rfl
+
+theorem pktTos_maskP (p : PHdr) : pktTos (maskP p) % 4 = 0 := by
+  obtain ⟨src, dst, typ, llc, vlan, l3⟩ := p
+  cases l3 <;> simp [maskP, pktTos, dscpOf_mod]
+
+/-- `r` with nw_tos reduced to its DSCP bits -/
+def dscpR (r : OfMatch) : OfMatch := { r with nwTos := dscpOf r.nwTos }
+
+theorem matchHdr_dscpR (r : OfMatch) (h : Spec.Headers) : Spec.matchHdr (dscpR r) h = Spec.matchHdr r h := by
+  have e : (dscpR r).nwTos / 4 = r.nwTos / 4 := dscpOf_div r.nwTos
+  simp only [Spec.matchHdr, e]
+  rfl
+
+theorem subsumes_dscpR (a b : OfMatch) : Spec.subsumes (dscpR a) (dscpR b) = Spec.subsumes a b := by
+  have ea : (dscpR a).nwTos / 4 = a.nwTos / 4 := dscpOf_div a.nwTos
+  have eb : (dscpR b).nwTos / 4 = b.nwTos / 4 := dscpOf_div b.nwTos
+  simp only [Spec.subsumes, ea, eb]
+  rfl
+
+theorem prereq_dscpR (r : OfMatch) (h : PrereqExact r) : PrereqExact (dscpR r) := h
+
+theorem dscpM_ofWire (hv : v.tosDscp = true) (r : OfMatch) : v.dscpM (v.ofWire r) = v.ofWire (dscpR r) := by
+  simp [dscpM, hv, dscpR, Variant.ofWire]
+
+theorem dscpM_fromHeaders_maskO (o : OHeaders) : v.dscpM (fromHeaders (maskO o)) = fromHeaders (maskO o) := by
+  unfold dscpM
+  split
+  · have : (fromHeaders (maskO o)).nwTos = dscpOf ((fromHeaders (maskO o)).nwTos) := by
+      show (Option.map dscpOf o.nwTos).getD 0 = dscpOf ((Option.map dscpOf o.nwTos).getD 0)
+      cases o.nwTos with
+      | none => rfl
+      | some t => simp [dscpOf_idem]
+    cases hq : fromHeaders (maskO o)
+    rw [hq] at this
+    simp only at this
+    simp [← this]
+  · rfl
+
+theorem pktHeaders_eq (hv : v.tosDscp = true) (sf : Bool) (p : PHdr) (ip : Option Nat) :
+    v.pktHeaders sf p ip = maskO (v.extract sf p ip) := by
+  simp [pktHeaders, hv, maskO]
+
+theorem pktHeaders_raw (hv : v.tosDscp = false) (sf : Bool) (p : PHdr) (ip : Option Nat) :
+    v.pktHeaders sf p ip = v.extract sf p ip := by
+  simp [pktHeaders, hv]
+
+theorem mww_raw (hv : v.tosDscp = false) (c : Bool) (a b : OfMatch) : v.mww c a b = OfMatch.matchesWith c a b := by
+  simp [mww, dscpM, hv]
+
+/-- **`matches_iff` for every variant, D36 included**: with the ToS repair no hypothesis about ECN bits is left -/
+theorem accepts_packet (r : OfMatch) (p : PHdr) (port : Nat) (hp : v.prereqExact = false → PrereqExact r)
+    (ht : v.tosDscp = false → r.nwTos % 4 = 0 ∧ pktTos p % 4 = 0) (hr : v.regular p = true) :
+    v.mww false (v.ofWire r) (v.pktMatch p port) = Spec.matchHdr r (Spec.headers p port) := by
+  cases hv : v.tosDscp
+  · rw [mww_raw v hv, pktMatch, pktHeaders_raw v hv]
+    exact wire_accepts_packet v r p port hp (ht hv).1 hr (ht hv).2
+  · unfold mww
+    rw [dscpM_ofWire v hv, pktMatch, pktHeaders_eq v hv]
+    have he : v.extract true (maskP p) (some port) = maskO (v.extract true p (some port)) := extractG_maskP _ _ _ _
+    rw [← he] at *
+    rw [he, dscpM_fromHeaders_maskO, ← he, ← matchHdr_dscpR r, ← headers_maskP p port]
+    have hr' : v.regular (maskP p) = true := by unfold Variant.regular; rw [regularG_maskP]; exact hr
+    exact wire_accepts_packet v (dscpR r) (maskP p) port (fun h => prereq_dscpR r (hp h)) (dscpOf_mod _) hr' (pktTos_maskP p)
+
+/-- subsumption for every variant, D36 included -/
+theorem subsumes_code (a b : OfMatch) (ha : v.prereqExact = false → PrereqExact a) (hb : v.prereqExact = false → PrereqExact b)
+    (ht : v.tosDscp = false → a.nwTos % 4 = 0 ∧ b.nwTos % 4 = 0) (hbw : b.wildcards < 2 ^ 22) :
+    v.mww true (v.ofWire a) (v.ofWire b) = Spec.subsumes a b := by
+  cases hv : v.tosDscp
+  · rw [mww_raw v hv]; exact code_subsumes v a b ha hb (ht hv).1 (ht hv).2 hbw
+  · unfold mww
+    rw [dscpM_ofWire v hv, dscpM_ofWire v hv, ← subsumes_dscpR a b]
+    exact code_subsumes v (dscpR a) (dscpR b) (fun h => prereq_dscpR a (ha h)) (fun h => prereq_dscpR b (hb h))
+      (dscpOf_mod _) (dscpOf_mod _) hbw
+
+/-- Lookup in any table that is sorted by the variant's effective priority and whose entries stem from transmitted flows answers as
+    the standard prescribes for the flows the table holds. -/
+theorem lookup_isBest (tbl : Table Spec.Flow) (hs : SortedBy v.effectivePriority tbl)
+    (hw : ∀ e ∈ tbl, e = v.toEntry e.data ∧ v.FlowOk e.data)
+    (p : PHdr) (port : Nat) (hr : v.regular p = true) (hpt : v.tosDscp = false → pktTos p % 4 = 0) :
+    Spec.IsBestSig (tbl.map (·.data)) (Spec.headers p port) ((v.entryForPacket tbl p port).map (·.data)) := by
+  have hacc : ∀ e ∈ tbl, v.accepts (v.pktMatch p port) e = Spec.matchHdr e.data.mtch (Spec.headers p port) := by
+    intro e he
+    obtain ⟨h1, h2⟩ := hw e he
+    rw [h1]
+    exact accepts_packet v e.data.mtch p port h2.prereq (fun h => ⟨h2.tos h, hpt h⟩) hr
+  obtain ⟨hfound, hmiss⟩ := first_match_max v.effectivePriority (v.accepts (v.pktMatch p port)) tbl hs
+  cases hq : v.entryForPacket tbl p port with
+  | none =>
+    have := hmiss.mp hq
+    simp only [Option.map_none, Spec.IsBestSig]
+    intro g hg
+    obtain ⟨e, he, rfl⟩ := List.mem_map.mp hg
+    rw [← hacc e he]; exact this e he
+  | some e =>
+    obtain ⟨h1, h2, h3⟩ := hfound e hq
+    simp only [Option.map_some, Spec.IsBestSig]
+    refine ⟨List.mem_map.mpr ⟨e, h2, rfl⟩, by rw [← hacc e h2]; exact h1, ?_⟩
+    intro g hg hm
+    obtain ⟨e', he', rfl⟩ := List.mem_map.mp hg
+    have hle := h3 e' he' (by rw [hacc e' he']; exact hm)
+    have a := (hw e h2).1
+    have b := (hw e' he').1
+    rw [a, b] at hle
+    exact rank_le v e.data e'.data (hw e h2).2 (hw e' he').2 hle
 
 end Variant
 
@@ -627,11 +755,11 @@ theorem Variant.selfflow_exact (v : Variant) (hv : v.exactSig = true) (p : PHdr)
 
 /-- the table after the flow-mods `fs` (ADDs, in order) under variant `v` -/
 def Variant.install (v : Variant) (fs : List Spec.Flow) : Table Spec.Flow :=
-  TableOps.run v.effectivePriority true (fs.map fun f => TableOps.Op.add (v.toEntry f))
+  TableOps.run v.effectivePriority v.mww true (fs.map fun f => TableOps.Op.add (v.toEntry f))
 
 theorem Variant.mem_install (v : Variant) (fs : List Spec.Flow) (e : Entry Spec.Flow) :
     e ∈ v.install fs ↔ ∃ f ∈ fs, e = v.toEntry f := by
-  have h := TableOps.mem_runFrom_adds v.effectivePriority true (fs.map v.toEntry) [] e
+  have h := TableOps.mem_runFrom_adds v.effectivePriority v.mww true (fs.map v.toEntry) [] e
   simp only [List.map_map, List.not_mem_nil, false_or, List.mem_map] at h
   unfold Variant.install TableOps.run
   have e1 : (fs.map fun f => TableOps.Op.add (v.toEntry f)) = fs.map (TableOps.Op.add ∘ v.toEntry) := rfl
@@ -641,11 +769,11 @@ theorem Variant.mem_install (v : Variant) (fs : List Spec.Flow) (e : Entry Spec.
   · rintro ⟨f, hf, rfl⟩; exact ⟨f, hf, rfl⟩
 
 theorem Variant.install_sorted (v : Variant) (fs : List Spec.Flow) : SortedBy v.effectivePriority (v.install fs) :=
-  TableOps.run_sorted _ _ _
+  TableOps.run_sorted _ _ _ _
 
 /-- lookup in a table built from flow-mods, against the standard (prerequisite-rule reading of "exact") -/
 theorem Variant.install_isBest (v : Variant) (fs : List Spec.Flow) (hfs : ∀ f ∈ fs, v.FlowOk f)
-    (p : PHdr) (port : Nat) (hr : v.regular p = true) (hpt : pktTos p % 4 = 0) :
+    (p : PHdr) (port : Nat) (hr : v.regular p = true) (hpt : v.tosDscp = false → pktTos p % 4 = 0) :
     Spec.IsBestSig fs (Spec.headers p port) ((v.entryForPacket (v.install fs) p port).map (·.data)) := by
   have hmem : ∀ e ∈ v.install fs, e = v.toEntry e.data ∧ v.FlowOk e.data := by
     intro e he
